@@ -192,7 +192,7 @@ PROPERTY = dict(
     functions=['sequtils.pick_best_base_call', 'sequtils.get_consensus_dictionaries / read_to_consensus_dict', 'fragment.Fragment.get_consensus', 'molecule.Molecule.get_consensus'],
     bounds=dict(pick_best='<=3 calls, bases over ACGTN, UNBOUNDED non-negative qualities, missing calls', mates='one pair overlapping by 0..4 bases, the overlapping base of each mate over ACGTN with quality 0..60, both orientations, dove_safe on/off; every placement of a forward mate of length 1..6 against a reverse mate of length 1..6 starting -3..+3 (dove tails on both sides)',
                 majority='1..4 single-read fragments x 1 position over ACGTN (all 5^4 columns), 3 fragments x 2 positions; 1..3 fragments x 2 positions where the first fragment has a one-base insertion or deletion between them', order='all 6 insertion orders of 3 fragments, each fragment duplicated, partial overlap'),
-    outside=['molecules of more than 4 fragments (the vote is per position and count-based: argument only)', 'indels longer than one base / in more than one fragment', 'only_include_refbase / cycle skipping options'],
+    outside=['molecules of more than 4 fragments (the vote is per position and count-based: argument only)', 'indels longer than one base / in more than one fragment', 'only_include_refbase / cycle skipping options', 'fragments without read 1, bases outside ACGTN'],
     assumptions=['bases are selected by symbolic indices into ACGTN (numpy sees concrete counts on each path)', 'FakeRead.get_aligned_pairs(with_seq) models pysam for M-only CIGARs'],
     trusted=['stubs/fakeread.py', 'spec/c13.py'],
 )
